@@ -45,7 +45,19 @@ func main() {
 		fmt.Fprintln(os.Stderr, "load:", err)
 		os.Exit(1)
 	}
-	var mutators, nondet, unguarded, handlers, beginOrder, setAccount []string
+	var mutators, nondet, unguarded, handlers, beginOrder, setAccount, upgradeCalls []string
+	// orchestration code that behaviour cannot pin down call by call: the ordered calls of the
+	// v1.2.0 upgrade handler and of the module migrators, and the consensus versions (C16)
+	seqOf := map[string]bool{
+		"app/upgrades/v120/upgrades.go:CreateUpgradeHandler": true,
+		"x/cfeminter/keeper/migrations.go:Migrate1to2":       true, "x/cfeminter/keeper/migrations.go:Migrate2to3": true,
+		"x/cfedistributor/keeper/migrations.go:Migrate1to2":  true, "x/cfedistributor/keeper/migrations.go:Migrate2to3": true,
+		"x/cfevesting/keeper/migrations.go:Migrate1to2":      true, "x/cfevesting/keeper/migrations.go:Migrate2to3": true,
+		"x/cfeminter/module.go:RegisterServices":             true, "x/cfedistributor/module.go:RegisterServices": true,
+		"x/cfevesting/module.go:RegisterServices":            true,
+		"x/cfeminter/module.go:ConsensusVersion":             true, "x/cfedistributor/module.go:ConsensusVersion": true,
+		"x/cfevesting/module.go:ConsensusVersion":            true, "x/cfesignature/module.go:ConsensusVersion": true,
+	}
 	bankFns := map[string]bool{"MintCoins": true, "BurnCoins": true, "SendCoins": true, "SendCoinsFromModuleToModule": true, "SendCoinsFromModuleToAccount": true,
 		"SendCoinsFromAccountToModule": true, "DelegateCoins": true, "UndelegateCoins": true, "DelegateCoinsFromAccountToModule": true, "UndelegateCoinsFromModuleToAccount": true}
 	for _, p := range pkgs {
@@ -78,6 +90,42 @@ func main() {
 					if t0 := types.ExprString(fd.Type.Params.List[0].Type); t0 == "context.Context" {
 						handlers = append(handlers, rel+"."+recv+"."+fn)
 					}
+				}
+				if seqOf[short+":"+fn] {
+					keep := map[string]bool{"MigrateParams": true, "MigrateStore": true, "RegisterMigration": true, "RunMigrations": true, "WithKeyTable": true,
+						"UpdateVestingAccountTraces": true, "ModifyVestingPoolsState": true, "ModifyVestingAccountsState": true}
+					ast.Inspect(fd.Body, func(n ast.Node) bool {
+						switch v := n.(type) {
+						case *ast.CallExpr:
+							name := ""
+							switch f := v.Fun.(type) {
+							case *ast.SelectorExpr:
+								name = f.Sel.Name
+							case *ast.Ident:
+								name = f.Name
+							}
+							if keep[name] {
+								arg := ""
+								if (name == "RegisterMigration" || name == "WithKeyTable") && len(v.Args) > 0 {
+									var parts []string
+									for _, a := range v.Args {
+										parts = append(parts, types.ExprString(a))
+									}
+									arg = "(" + strings.Join(parts, ",") + ")"
+								}
+								upgradeCalls = append(upgradeCalls, short+":"+fn+":"+name+arg)
+							}
+						case *ast.ReturnStmt:
+							if fn == "ConsensusVersion" && len(v.Results) == 1 {
+								upgradeCalls = append(upgradeCalls, short+":"+fn+":return "+types.ExprString(v.Results[0]))
+							}
+						case *ast.CaseClause:
+							for _, e := range v.List {
+								upgradeCalls = append(upgradeCalls, short+":"+fn+":case "+types.ExprString(e))
+							}
+						}
+						return true
+					})
 				}
 				guardedInt64 := false
 				ast.Inspect(fd.Body, func(n ast.Node) bool {
@@ -149,6 +197,11 @@ func main() {
 	b.WriteString(leanList("unguardedInt64", uniq(unguarded)))
 	b.WriteString(leanList("handlers", uniq(handlers)))
 	b.WriteString(leanList("beginBlockOrder", beginOrder))
+	sort.SliceStable(upgradeCalls, func(i, j int) bool {
+		a, b := strings.SplitN(upgradeCalls[i], ":", 3), strings.SplitN(upgradeCalls[j], ":", 3)
+		return a[0]+":"+a[1] < b[0]+":"+b[1]
+	})
+	b.WriteString(leanList("upgradeCalls", upgradeCalls))
 	b.WriteString("end C4E.Generated\n")
 	_ = token.NoPos
 	if err := os.WriteFile(out, []byte(b.String()), 0o644); err != nil {
